@@ -244,6 +244,28 @@ def _gen_hist(rng):
     return case
 
 
+def _gen_hist_idle(rng):
+    """Client.service shape: the parser is closed (repeatedly) while it is idle between messages -- cut off, reconnect
+    timer not yet expired -- then the next message arrives in fragments cut at line ends or anywhere"""
+    who = rng.choice(["req", "resp", "resp"])
+    nmsg = rng.choice([1, 2, 3])
+    ops, expects = [], []
+    for n in range(nmsg):
+        last = n == nmsg - 1
+        w, e = _gen_one_message(rng, who, n, allow_until=(who == "resp" and last and rng.random() < 0.4))
+        expects.append(e)
+        for _ in range(rng.choice([0, 1, 2, 3])):
+            ops += [["parse"], ["close"]]
+        ops += [["parse"]]
+        lines = [i + 2 for i in range(len(w) - 2) if w[i:i + 2] == b"\r\n"]
+        cuts = rng.sample(lines, k=min(len(lines), rng.choice([1, 2, 3]))) if rng.random() < 0.7 else \
+            [rng.randrange(1, len(w)) for _ in range(rng.choice([1, 2, 4]))]
+        for frag in cut(w, cuts):
+            ops += [["data", h(frag)], ["parse"]]
+    ops += [["close"], ["parse"]]
+    return {"kind": "hist", "who": who, "ops": ops, "expect": expects}
+
+
 def _hist_case(who, steps, expect):
     ops = []
     for st in steps:
@@ -280,6 +302,14 @@ def directed():
     out.append(_hist_case("resp", [rseq[:70], "parse", rseq[70:], "parse"],
                           [{"body": h(b"first"), "trails": [[h(b"t"), h(b"1")]]}, {"body": h(b"second"), "trails": []},
                            {"body": h(b"ok"), "trails": []}]))
+    # closed while idle, then a healthy message whose head is split at a line end (finding D42, repo 0a30e14)
+    out.append(_hist_case("resp", ["parse", "close", "parse", "close", b"HTTP/1.1 200 OK\r\n", "parse",
+                                   b"Content-Length: 2\r\n\r\n", "parse", b"ok", "parse"], [{"body": h(b"ok"), "trails": []}]))
+    out.append(_hist_case("resp", ["parse", "close", "parse", "close", b"HTTP/1.0 200 OK\r\n\r\nabc", "parse", b"def", "parse",
+                                   "close", "parse"], [{"body": h(b"abcdef"), "trails": []}]))
+    out.append(_hist_case("req", ["parse", "close", "parse", "close", b"POST / HTTP/1.1\r\n", "parse",
+                                  b"Transfer-Encoding: chunked\r\n\r\n", "parse", b"2\r\nok\r\n", "parse", b"0\r\n\r\n", "parse"],
+                          [{"body": h(b"ok"), "trails": []}]))
     out.append(_hist_case("resp", [b"HTTP/1.0 200 OK\r\n\r\nabc", "parse", b"def", "close", "parse"], [{"body": h(b"abcdef")}]))
     out.append(_hist_case("resp", [b"HTTP/1.1 200 OK\r\nContent-Length: 6\r\n\r\nabc", "parse", "close", b"def", "parse"], [{"body": h(b"abcdef")}]))
     out.append(_hist_case("req", [b"PUT / HTTP/1.1\r\nContent-Length: 6\r\n\r\nabc", "parse", "close", "parse"], None))
@@ -322,6 +352,8 @@ def generate(rng, tier):
         out.append(_mal_case(rng))
     for _ in range(250 if tier == "quick" else 2500):
         out.append(_gen_hist(rng))
+    for _ in range(120 if tier == "quick" else 1200):
+        out.append(_gen_hist_idle(rng))
     return out
 
 
